@@ -95,3 +95,33 @@ def fam_string_literals(d):
     if d.chance(3):
         return "def main():\n" + textwrap.indent(body, "    ") + "main()\n"
     return body
+
+
+def fam_reported_shapes(d):
+    """Shapes that independent reviewers of the rules reported (each one broke a rule at some point): class-body references to
+    members that keep their name, chains of duplicate functions, loops that read what they build, indexes used twice, loosely
+    binding collections under `in`, lambdas with defaults, shared names of pure and impure callables, self-comparison of calls,
+    dead generators, missing imports under multi-line docstrings / parenthesised __future__ imports."""
+    n = d.int(2, 4)
+    body = d.pick([
+        "class K:\n    someAttr = {n}\n    other = someAttr + 1\n    def getIt(self):\n        return self.other\n    alias = getIt\nprint(K.other, K.someAttr, K().alias())\n",
+        "class K:\n    @property\n    def someProp(self):\n        return self._v\n    @someProp.setter\n    def someProp(self, v):\n        self._v = v + {n}\nk = K()\nk.someProp = 3\nprint(k.someProp)\n",
+        "class K:\n    def helperOne(self):\n        return {n}\n    table = {'h': helperOne}\n    def run(self):\n        return self.table['h'](self)\nprint(K().run())\n",
+        "def double(x):\n    return x * 2\ndef twice_over(x):\n    return x * 2\ndef f(x):\n    return twice_over(x) + 1\ndef g(x):\n    return twice_over(x) + 1\nif f(1):\n    print(f(1), g({n}), double(3), twice_over(4))\n",
+        "def aa(x):\n    return x + {n}\ndef a_longer_name(x):\n    return x + {n}\ndef f(x):\n    return a_longer_name(x) * 2\ndef g(x):\n    return a_longer_name(x) * 2\nprint(f(1)); print(g(2), aa(3))\n",
+        "x = []\nfor i in range({n}):\n    x.append(len(x))\nprint(x)\ns = set()\nfor i in range({n}):\n    s.add(len(s) * 2)\nprint(sorted(s))\nt = 1\nfor i in range({n}):\n    t += t * i\nprint(t)\n",
+        "x = []\nfor i in range({n}):\n    x.append(i)\nelse:\n    print('else ran')\nprint(x)\nt = 0\nfor i in range({n}):\n    t += i\nelse:\n    print('else too')\nprint(t)\n",
+        "x = [1, 2, 3, 4]\nprint([x[i] * i for i in range(len(x))], [x[i] + x[i] for i in range(len(x))], {i: x[i] for i in range(len(x))}, [x[i] for i in range(len(x))])\n",
+        "a = []\nb = [{n}]\nprint({n} in list(a or b), {n} in tuple(b if a else a), {n} in sorted(a + b), 1 in list(b), {n} in set(a or b))\n",
+        "def f(x, y):\n    return x + y\ng = lambda x, y={n}: f(x, y)\nh = lambda x, y: f(x, y)\nk = lambda *a, **kw: f(*a, **kw)\nprint(g(1), h(1, 2), k(1, y=2))\n",
+        "class A:\n    def reset(self):\n        return 1\ndef reset():\n    print('impure reset')\nreset()\nA().reset()\nprint({n})\n",
+        "def g():\n    print('g called')\n    return {n}\nif g() == g():\n    print('eq')\nprint(g() == g(), [g() == g() for _ in range(1)])\n",
+        "x = [1, 2]\nprint([a for a in x for b in x if 0], [a for a in x if 0 for b in x], {a for a in x if 1 for b in range({n}) if 0}, [(a, b) for a in x for b in range({n}) if 1])\n",
+        '"""Module doc\nmore text {n}\n"""\nprint(os.path.basename("a/b"), math.floor({n}.5))\n',
+        "from __future__ import (\n    annotations,\n)\nx = os.path.basename('p/q')\nprint(x, {n})\n",
+        "#!/usr/bin/env python\n# licence line\n'''Doc'''\nfrom __future__ import annotations\n# comment\nprint(os.path.basename('p/q'), {n})\n",
+        "s = 'a b'\nx = os.path.basename('p/q')\nprint([s], x, {n})\n",
+        "def f(q):\n    x0 = q + {n}\n    x1 = x0\n    x2 = x1\n    x3 = x2\n    x4 = x3\n    x5 = x4\n    x6 = x5\n    x7 = x6\n    return x7\nprint(f(1))\n",
+        "import functools\n@functools.lru_cache(maxsize=None)\ndef f(a):\n    return 'a long string constant that is used often'\nprint('a long string constant that is used often', 'a long string constant that is used often')\nprint('a long string constant that is used often', 'a long string constant that is used often', f({n}))\nprint('a long string constant that is used often', 'a long string constant that is used often')\n",
+    ]).replace("{n}", str(n))
+    return body
